@@ -198,6 +198,42 @@ theorem C18_period_constructors (t t2 : Ts) (ht : t.Normal) (x : Int) :
     refine (C18_intersect _ _ hall hp).mpr ⟨y, ?_, hy⟩
     simp [allTime, Period.Mem, Period.lo, Period.hi, lbLe, ubLt]
 
+/-- What the predicates compute for ALL periods with normalised bounds, degenerate ones (start ≥ end)
+included: `Intersect` is "each lower bound is strictly below the other period's upper bound", `Connected` the
+same with ≤ (absent bounds are infinite).  For non-empty periods that is overlap (`C18_intersect`); an
+empty or inverted period can still "intersect" one that straddles its bounds — the hypothesis `Proper` of
+`C18_intersect` cannot be dropped (last clause: `[3,3)` and `[0,10)`). -/
+theorem C18_period_predicates_general (p q : Period)
+    (hp : optNormal p.start ∧ optNormal p.stop) (hq : optNormal q.start ∧ optNormal q.stop) :
+    (periodsIntersect (some p) (some q) = true ↔ bLt p.lo q.hi ∧ bLt q.lo p.hi) ∧
+    (periodsConnected (some p) (some q) = true ↔ bLe p.lo q.hi ∧ bLe q.lo p.hi) ∧
+    periodsIntersect (some ⟨some ⟨3, 0⟩, some ⟨3, 0⟩⟩) (some ⟨some ⟨0, 0⟩, some ⟨10, 0⟩⟩) = true := by
+  refine ⟨?_, ?_, by decide⟩
+  · simp only [periodsIntersect, Bool.and_eq_true, decide_eq_true_eq]
+    rw [lower_lt_upper p q hp.1 hq.2, lower_lt_upper q p hq.1 hp.2]
+  · simp only [periodsConnected, Bool.and_eq_true, decide_eq_true_eq]
+    rw [lower_le_upper p q hp.1 hq.2, lower_le_upper q p hq.1 hp.2]
+
+/-- `PeriodBefore(a)` and `PeriodOnOrAfter(b)` intersect exactly when `b` is before `a`, and are connected
+exactly when `b` is not after `a` — the period predicates agree with `CompareAscending`. -/
+theorem C18_before_after (a b : Ts) (ha : a.Normal) (hb : b.Normal) :
+    (periodsIntersect (some (periodBefore (some a))) (some (periodOnOrAfter (some b))) = true ↔
+      compareAscending b a = -1) ∧
+    (periodsConnected (some (periodBefore (some a))) (some (periodOnOrAfter (some b))) = true ↔
+      compareAscending b a ≤ 0) := by
+  have hpa : optNormal (periodBefore (some a)).start ∧ optNormal (periodBefore (some a)).stop := by
+    simp [periodBefore, optNormal, ha]
+  have hpb : optNormal (periodOnOrAfter (some b)).start ∧ optNormal (periodOnOrAfter (some b)).stop := by
+    simp [periodOnOrAfter, optNormal, hb]
+  obtain ⟨h1, h2, _⟩ := C18_period_predicates_general _ _ hpa hpb
+  have hc := C18_compare_chronological b a hb ha
+  have hle := compareAscending_le_zero b a hb ha
+  constructor
+  · rw [h1, hc.1]
+    simp [periodBefore, periodOnOrAfter, Period.lo, Period.hi, bLt]
+  · rw [h2, hle]
+    simp [periodBefore, periodOnOrAfter, Period.lo, Period.hi, bLe]
+
 /-! Non-vacuity: concrete proper periods exist, and the predicates take both values on them. -/
 example : (⟨some ⟨2, 0⟩, some ⟨4, 0⟩⟩ : Period).Proper ∧ (⟨none, some ⟨3, 5⟩⟩ : Period).Proper := by
   simp [Period.Proper, optNormal, Ts.Normal, Ts.toNs, bLt, Period.lo, Period.hi]
